@@ -53,7 +53,7 @@ class Run:
 
     def model(self, name, module, cfg=None, workers=8, timeout=3000, coverage=False, xmx=None, extra=None, exhaustive_note=None):
         r = vlib.run_tlc("%s-%s-%s" % (self.pid, self.tier, name), module, cfg=cfg, workers=workers,
-                         timeout=timeout, coverage=coverage, xmx=xmx, extra=extra)
+                         timeout=timeout, coverage=coverage, xmx=xmx or "4g -Xmn192m", extra=extra)
         self.states += r.distinct
         self.transitions += r.generated
         self.models.append({"model": module, "cfg": cfg or module + ".cfg", "distinct_states": r.distinct,
@@ -279,4 +279,67 @@ def plan_C14(run):
     run.validate(tr, "TraceAuth")
 
 
-PLANS = {"C01": plan_C01, "C02": plan_C02, "C03": plan_C03, "C04": plan_C04, "C05": plan_C05, "C14": plan_C14}
+def plan_C06(run):
+    tr = run.harness("world")
+    run.validate(tr, "TraceCipher")
+
+
+def stream_plan(run, exp):
+    if exp != "wrath":
+        run.model("stream", "MCStream", "MCStream_%s.cfg" % exp, workers=8,
+                  exhaustive_note="every reachable cipher state (i, p) x every input byte, sender and receiver in lock-step")
+        tr = run.harness("sweep", extra=[exp], tag="sweep")
+        run.validate(tr, "TraceCipher", max_events=600, parallel=6)
+        if run.thorough:
+            run.exhaustive["sweep"] = "real EncrypterHalf/DecrypterHalf brought into every state (i, p), every input byte applied (2 keys)"
+    tr = run.harness("stream", extra=[exp], tag="stream")
+    run.validate(tr, "TraceCipher", max_events=4000, parallel=6)
+
+
+def plan_C07(run):
+    stream_plan(run, "vanilla")
+
+
+def plan_C08(run):
+    stream_plan(run, "tbc")
+
+
+def plan_C09(run):
+    stream_plan(run, "wrath")
+
+
+def plan_C10(run):
+    r = run.model("wrathheader", "MCWrathHeader", "MCWrathHeader_%s.cfg" % ("t" if run.thorough else "q"), workers=8,
+                  exhaustive_note="codec facts on all sizes of the configured shards; all header sequences up to MaxLen over the boundary sets")
+    if run.thorough:
+        run.exhaustive["codec"] = "CodecOK for all 2^23 sizes x 4 opcodes (128 shards of 65536)"
+    scen = run.scen_file("wrathhdr", r.replay)
+    tr = run.harness("wrathhdr", scen=scen)
+    run.validate(tr, "TraceCipher", max_events=6000, parallel=6)
+
+
+def plan_C11(run):
+    r = run.model("headerio", "MCHeaderIO", "MCHeaderIO_%s.cfg" % ("t" if run.thorough else "q"), workers=4,
+                  exhaustive_note="every composition of every header length x interruption position x failure offset x error kind, read and write")
+    templ = r.replay
+    if not run.thorough:
+        templ = [t for i, t in enumerate(templ) if (i + run.seed) % 4 == 0]
+    scen = run.scen_file("hdrio", templ)
+    tr = run.harness("hdrio", scen=scen)
+    run.validate(tr, "TraceCipher", max_events=6000, parallel=6)
+
+
+def plan_C12(run):
+    scen = []
+    suffix = "t" if run.thorough else "q"
+    for exp in ("vanilla", "tbc", "wrath"):
+        r = run.model("halves-" + exp, "MCHalves", "MCHalves_%s_%s.cfg" % (exp, suffix), workers=4,
+                      exhaustive_note="all interleavings of enc/dec chunks, split, clone, unsplit up to MaxOps; all two-thread schedules of ProgLen calls each")
+        scen += r.replay
+    sf = run.scen_file("halves", scen)
+    tr = run.harness("halves", scen=sf)
+    run.validate(tr, "TraceCipher", max_events=6000, parallel=6)
+
+
+PLANS = {"C06": plan_C06, "C07": plan_C07, "C08": plan_C08, "C09": plan_C09, "C10": plan_C10, "C11": plan_C11, "C12": plan_C12,
+         "C01": plan_C01, "C02": plan_C02, "C03": plan_C03, "C04": plan_C04, "C05": plan_C05, "C14": plan_C14}
